@@ -26,7 +26,7 @@ Definition inv_order s : Prop :=
 
 Lemma step_inv_order c s e : inv_order s -> inv_order (bstep c s e).
 Proof.
-  unfold inv_order. intros [H1 H2]. destruct e as [i|ok|ok| |ok]; simpl.
+  unfold inv_order. intros [H1 H2]. destruct e as [i|ok|ok| |ok|j]; simpl.
   - destruct (_ <? qcap c); simpl; split; auto. rewrite H1, app_assoc. reflexivity.
   - destruct (blocked s); [auto|]. destruct (pc s); [|auto]. destruct (queue s) as [|i q] eqn:Q; [rewrite Q; auto|].
     destruct ok; simpl.
@@ -37,7 +37,9 @@ Proof.
     rewrite H2, concat_app. simpl. now rewrite !app_nil_r.
   - auto.
   - destruct (blocked s); [auto|]. destruct (pc s); [|auto]. destruct (t_chan (tm s)); [|auto].
+    destruct (fixed_S28 c && (cur s =? 0)); [simpl; auto|].
     destruct ok; simpl; [|auto]. split; auto. rewrite H2, concat_app. simpl. now rewrite !app_nil_r.
+  - auto.
 Qed.
 
 Lemma run_inv_order c es : inv_order (brun c es).
@@ -55,12 +57,13 @@ Proof. intros H. simpl. destruct (N.ltb_spec (N.of_nat (length (queue s))) (qcap
 Definition inv_cap c s : Prop := N.of_nat (length (queue s)) <= qcap c.
 Lemma step_inv_cap c s e : inv_cap c s -> inv_cap c (bstep c s e).
 Proof.
-  unfold inv_cap. intros H. destruct e as [i|ok|ok| |ok]; simpl; auto.
+  unfold inv_cap. intros H. destruct e as [i|ok|ok| |ok|j]; simpl; auto.
   - destruct (N.ltb_spec (N.of_nat (length (queue s))) (qcap c)); simpl; auto. rewrite app_length. simpl. lia.
   - destruct (blocked s); [auto|]. destruct (pc s); [|auto]. destruct (queue s) as [|i q] eqn:Q; [rewrite Q; auto|].
     simpl in H. destruct ok; simpl; lia.
   - destruct (blocked s); [auto|]. destruct (pc s); [auto|]. destruct ok; simpl; auto. destruct (t_stop_drain _); auto.
-  - destruct (blocked s); [auto|]. destruct (pc s); [|auto]. destruct (t_chan _); [|auto]. destruct ok; auto.
+  - destruct (blocked s); [auto|]. destruct (pc s); [|auto]. destruct (t_chan _); [|auto].
+    destruct (fixed_S28 c && (cur s =? 0)); [auto|]. destruct ok; auto.
 Qed.
 Lemma run_inv_cap c es : inv_cap c (brun c es).
 Proof. apply run_inv; [apply step_inv_cap|]. unfold inv_cap; simpl; lia. Qed.
@@ -69,7 +72,7 @@ Proof. apply run_inv; [apply step_inv_cap|]. unfold inv_cap; simpl; lia. Qed.
 Definition inv_cur s : Prop := blocked s = false -> cur s = N.of_nat (length (pend s)).
 Lemma step_inv_cur c s e : inv_cur s -> inv_cur (bstep c s e).
 Proof.
-  unfold inv_cur. intros H. destruct e as [i|ok|ok| |ok]; simpl; auto.
+  unfold inv_cur. intros H. destruct e as [i|ok|ok| |ok|j]; simpl; auto.
   - destruct (_ <? qcap c); simpl; auto.
   - destruct (blocked s) eqn:B; [intros; congruence|]. destruct (pc s); [|rewrite B; auto].
     destruct (queue s) as [|i q] eqn:Q; [rewrite B; auto|].
@@ -77,7 +80,7 @@ Proof.
   - destruct (blocked s) eqn:B; [intros; congruence|]. destruct (pc s); [rewrite B; auto|]. destruct ok; simpl; auto.
     destruct (t_stop_drain (tm s)) as [t2 blk]. simpl. intros ->. reflexivity.
   - destruct (blocked s) eqn:B; [intros; congruence|]. destruct (pc s); [|rewrite B; auto].
-    destruct (t_chan _); [|rewrite B; auto]. destruct ok; simpl; auto.
+    destruct (t_chan _); [|rewrite B; auto]. destruct (fixed_S28 c && (cur s =? 0)); [simpl; auto|]. destruct ok; simpl; auto.
 Qed.
 Lemma run_inv_cur c es : inv_cur (brun c es).
 Proof. apply run_inv; [apply step_inv_cur|]. intros _; reflexivity. Qed.
@@ -93,7 +96,7 @@ Proof. unfold armed, t_fire. destruct t as [[|] [|]]; simpl; tauto. Qed.
 
 Lemma step_inv_timer c s e : fixed_S2 c = true -> inv_timer s -> inv_timer (bstep c s e).
 Proof.
-  unfold inv_timer. intros F (B & P & T). destruct e as [i|ok|ok| |ok]; simpl.
+  unfold inv_timer. intros F (B & P & T). destruct e as [i|ok|ok| |ok|j]; simpl.
   - destruct (_ <? qcap c); simpl; auto.
   - rewrite B. destruct (pc s) eqn:PC; [|auto]. destruct (queue s) as [|i q]; [rewrite PC; auto|].
     assert (T1 : armed (if cur s =? 0 then t_reset (tm s) else tm s)).
@@ -108,9 +111,13 @@ Proof.
     + repeat split; auto; try discriminate; try (intros; lia).
   - repeat split; auto. intros H. apply armed_fire. auto.
   - rewrite B. destruct (pc s) eqn:PC; [|rewrite PC; auto]. destruct (t_chan (tm s)); [|rewrite PC; auto].
+    destruct (fixed_S28 c && (cur s =? 0)) eqn:S28.
+    { apply andb_true_iff in S28. destruct S28 as [_ C0]. apply N.eqb_eq in C0. simpl.
+      repeat split; auto; try discriminate; intros; lia. }
     destruct ok; simpl.
     + repeat split; auto; try discriminate; intros; lia.
     + rewrite F. repeat split; auto; try discriminate. intros _. apply armed_reset.
+  - simpl. auto.
 Qed.
 
 Lemma never_blocks c es : fixed_S2 c = true -> blocked (brun c es : bst A) = false.
@@ -136,7 +143,7 @@ Definition no_age_failure (es : list (bev A)) : bool :=
 Lemma step_inv_timer_unfixed c s e : (match e with OnTimer false => false | _ => true end) = true ->
   inv_timer s -> inv_timer (bstep c s e).
 Proof.
-  unfold inv_timer. intros E (B & P & T). destruct e as [i|ok|ok| |ok]; simpl.
+  unfold inv_timer. intros E (B & P & T). destruct e as [i|ok|ok| |ok|j]; simpl.
   - destruct (_ <? qcap c); simpl; auto.
   - rewrite B. destruct (pc s) eqn:PC; [|auto]. destruct (queue s) as [|i q]; [rewrite PC; auto|].
     assert (T1 : armed (if cur s =? 0 then t_reset (tm s) else tm s)).
@@ -151,7 +158,11 @@ Proof.
     + repeat split; auto; try discriminate; try (intros; lia).
   - repeat split; auto. intros H. apply armed_fire. auto.
   - destruct ok; [|discriminate]. rewrite B. destruct (pc s) eqn:PC; [|rewrite PC; auto]. destruct (t_chan (tm s)); [|rewrite PC; auto].
+    destruct (fixed_S28 c && (cur s =? 0)) eqn:S28.
+    { apply andb_true_iff in S28. destruct S28 as [_ C0]. apply N.eqb_eq in C0. simpl.
+      repeat split; auto; try discriminate; intros; lia. }
     simpl. repeat split; auto; try discriminate; intros; lia.
+  - simpl. auto.
 Qed.
 
 Lemma never_blocks_unfixed_partial c es : no_age_failure es = true -> blocked (brun c es : bst A) = false.
@@ -175,7 +186,7 @@ Qed.
 (* between the Add/Rm that reaches the size limit and the commit the worker does nothing else *)
 Lemma only_commit_follows c s e : blocked s = false -> pc s = PCommit -> pc (bstep c s e) = PIdle -> exists ok, e = SizeCommit ok.
 Proof.
-  intros B P. destruct e as [j|ok|ok| |ok]; simpl; rewrite ?B, ?P; try congruence; eauto.
+  intros B P. destruct e as [j|ok|ok| |ok|j']; simpl; rewrite ?B, ?P; try congruence; eauto.
   destruct (_ <? qcap c); simpl; congruence.
 Qed.
 
@@ -187,11 +198,53 @@ Proof.
   destruct (t_active _); simpl; auto.
 Qed.
 
-Lemma commit_on_age c s ok : blocked s = false -> pc s = PIdle -> t_chan (tm s) = true ->
+Lemma commit_on_age c s ok : blocked s = false -> pc s = PIdle -> t_chan (tm s) = true -> 0 < cur s ->
   let s1 := bstep c s (OnTimer ok) in
   if ok then pend s1 = [] /\ committed s1 = committed s ++ [pend s] /\ cur s1 = 0
   else pend s1 = pend s /\ committed s1 = committed s /\ (fixed_S2 c = true -> t_active (tm s1) = true).
-Proof. intros B P T. simpl. rewrite B, P, T. destruct ok; simpl; repeat split; auto. intros ->. reflexivity. Qed.
+Proof.
+  intros B P T C. simpl. rewrite B, P, T. destruct (N.eqb_spec (cur s) 0); [lia|]. rewrite andb_false_r.
+  destruct ok; simpl; repeat split; auto. intros ->. reflexivity.
+Qed.
+
+(* fix S28: the timer branch of an empty batch reads the channel and does nothing else *)
+Lemma empty_batch_not_committed c s ok : fixed_S28 c = true -> blocked s = false -> pc s = PIdle -> t_chan (tm s) = true -> cur s = 0 ->
+  bstep c s (OnTimer ok) = mk_bst (queue s) (cur s) (t_recv (tm s)) (pend s) (committed s) (tlog s) PIdle false (accepted s) (refused s).
+Proof. intros F B P T C. simpl. rewrite B, P, T, F, C. reflexivity. Qed.
+
+Lemma rejected_no_effect c s i :
+  bstep c s (Reject i) = mk_bst (queue s) (cur s) (tm s) (pend s) (committed s) (tlog s) (pc s) (blocked s) (accepted s) (refused s ++ [i]).
+Proof. reflexivity. Qed.
+
+(* ---- no empty batch is ever committed (repaired code) ---- *)
+Definition inv_nonempty s : Prop := Forall (fun b : list A => b <> []) (committed s).
+
+Lemma step_inv_nonempty c s e : fixed_S28 c = true -> inv_cur s -> inv_timer s -> inv_nonempty s -> inv_nonempty (bstep c s e).
+Proof.
+  unfold inv_nonempty. intros F IC (B & P & _) H. specialize (IC B).
+  assert (NE : 0 < cur s -> pend s <> []).
+  { intros C E. rewrite E in IC. simpl in IC. lia. }
+  destruct e as [i|ok|ok| |ok|j]; simpl; auto.
+  - destruct (_ <? qcap c); simpl; auto.
+  - rewrite B. destruct (pc s); [|auto]. destruct (queue s) as [|i q]; [auto|]. destruct ok; simpl; auto.
+  - rewrite B. destruct (pc s) eqn:PC; [auto|]. destruct ok; simpl; [|auto].
+    destruct (t_stop_drain (tm s)) as [t2 blk]. simpl. apply Forall_app. split; [exact H|]. constructor; [|constructor].
+    apply NE, P. reflexivity.
+  - rewrite B. destruct (pc s); [|auto]. destruct (t_chan (tm s)); [|auto]. rewrite F. cbn [andb].
+    destruct (N.eqb_spec (cur s) 0) as [C0|C0]; [simpl; auto|].
+    destruct ok; simpl; [|auto]. apply Forall_app. split; [exact H|]. constructor; [|constructor]. apply NE. lia.
+Qed.
+
+Lemma never_commits_empty c es : fixed_S2 c = true -> fixed_S28 c = true -> Forall (fun b : list A => b <> []) (committed (brun c es)).
+Proof.
+  intros F2 F28.
+  assert (H : inv_cur (brun c es : bst A) /\ inv_timer (brun c es : bst A) /\ inv_nonempty (brun c es : bst A)).
+  { apply (run_inv (fun s => inv_cur s /\ inv_timer s /\ inv_nonempty s)).
+    - intros s e (H1 & H2 & H3). split; [now apply step_inv_cur|]. split; [now apply step_inv_timer|]. now apply step_inv_nonempty.
+    - split; [intros _; reflexivity|]. split; [|constructor].
+      unfold inv_timer, armed; simpl. repeat split; try discriminate; intros; lia. }
+  apply H.
+Qed.
 
 End BatchLemmas.
 
@@ -202,19 +255,32 @@ Definition s2_schedule : list (bev N) :=
   [Enq 1; Take true; Fire; OnTimer false; Enq 2; Take true; Enq 3; Take true; SizeCommit true; Enq 4; Take true].
 
 Lemma deadlock_before_fix :
-  let s := brun (mk_bcfg 10 3 false) s2_schedule in blocked s = true /\ queue s = [4] /\ accepted s = [1; 2; 3; 4].
+  let s := brun (mk_bcfg 10 3 false false) s2_schedule in blocked s = true /\ queue s = [4] /\ accepted s = [1; 2; 3; 4].
 Proof. vm_compute. auto. Qed.
 
 Lemma no_deadlock_after_fix :
-  let s := brun (mk_bcfg 10 3 true) s2_schedule in blocked s = false /\ queue s = [] /\ committed s = [[1; 2; 3]] /\ pend s = [4].
+  let s := brun (mk_bcfg 10 3 true true) s2_schedule in blocked s = false /\ queue s = [] /\ committed s = [[1; 2; 3]] /\ pend s = [4].
 Proof. vm_compute. auto. Qed.
 
 Lemma deadlock_before_fix_stmt :
   exists qcap maxsize (es : list (bev N)),
-    let s := brun (mk_bcfg qcap maxsize false) es in blocked s = true /\ queue s <> [] /\ accepted s = [1; 2; 3; 4].
+    let s := brun (mk_bcfg qcap maxsize false false) es in blocked s = true /\ queue s <> [] /\ accepted s = [1; 2; 3; 4].
 Proof. exists 10, 3, s2_schedule. vm_compute. repeat split; auto. discriminate. Qed.
 
 Lemma batch_example_l :
-  let s := brun (mk_bcfg 2 2 true) [Enq 1; Enq 2; Enq 3; Take true; Take true; SizeCommit true; Enq 4] in
+  let s := brun (mk_bcfg 2 2 true true) [Enq 1; Enq 2; Enq 3; Take true; Take true; SizeCommit true; Enq 4] in
   accepted s = [1; 2; 4] /\ refused s = [3] /\ committed s = [[1; 2]] /\ queue s = [4].
+Proof. vm_compute. auto. Qed.
+
+(* S28 as it was before the fix: the Add/Rm of the only operation fails (the pin cannot be serialised, or the datastore
+   query of set.Rmv fails), the age timer was armed all the same, it fires, and the timer branch commits a batch that
+   holds nothing (go-ds-crdt v0.1.21 then dereferences its nil delta). *)
+Definition s28_schedule : list (bev N) := [Enq 1; Take false; Fire; OnTimer true].
+
+Lemma empty_commit_before_fix :
+  exists qcap maxsize (es : list (bev N)), In [] (committed (brun (mk_bcfg qcap maxsize true false) es)).
+Proof. exists 10, 3, s28_schedule. vm_compute. left. reflexivity. Qed.
+
+Lemma no_empty_commit_after_fix :
+  let s := brun (mk_bcfg 10 3 true true) s28_schedule in committed s = [] /\ t_chan (tm s) = false /\ tlog s = [(1, false)].
 Proof. vm_compute. auto. Qed.
